@@ -1,6 +1,6 @@
 (* Properties/C19.v — default categories and modifiers (C19) *)
 From Coq Require Import Sorted.
-From HpoV Require Import Gen.Consts Model.Base Model.Group Model.Onto Model.Query Model.Script Proofs.ClosureP Proofs.C19P Proofs.C19B.
+From HpoV Require Import Gen.Consts Model.Base Model.Group Model.Onto Model.Query Model.Script Proofs.ClosureP Proofs.DistP Proofs.C19P Proofs.C19B.
 
 (* ROOT_ID, ROOT_ID_CAT and PHENOTYPE_ID are regenerated from /repo's source on every run
    (Gen/Consts.v); the statements below are re-checked against the current values. *)
@@ -47,6 +47,16 @@ Theorem C19_builder_categories : forall icf s codes o t, run_script icf s = Ok (
   forall c, In c (categories o t) <-> In c (o_cat o) /\ (c = t_id t \/ anc (o_arena o) (t_id t) c).
 Proof. exact builder_categories. Qed.
 
+(* the same for EVERY ontology with exact ancestor caches — JAX loads, sub-ontologies and accepted
+   binary files are such (C09 / C14 / C08 theorems) *)
+Theorem C19_is_modifier_exact_caches : forall o t, qgood o -> In t (ar_terms (o_arena o)) ->
+  (is_modifier o t = true <-> exists r, In r (o_mod o) /\ (r = t_id t \/ anc (o_arena o) (t_id t) r)).
+Proof. exact qgood_is_modifier. Qed.
+
+Theorem C19_categories_exact_caches : forall o t, qgood o -> In t (ar_terms (o_arena o)) ->
+  forall c, In c (categories o t) <-> In c (o_cat o) /\ (c = t_id t \/ anc (o_arena o) (t_id t) c).
+Proof. exact qgood_categories. Qed.
+
 Print Assumptions C19_default_modifier.
 Print Assumptions C19_default_categories.
 Print Assumptions C19_is_modifier.
@@ -56,3 +66,5 @@ Print Assumptions C19_error_iff_root_missing.
 Print Assumptions C19_root_ids.
 Print Assumptions C19_builder_is_modifier.
 Print Assumptions C19_builder_categories.
+Print Assumptions C19_is_modifier_exact_caches.
+Print Assumptions C19_categories_exact_caches.
